@@ -140,7 +140,11 @@ func maskUnmarshalText[T ~int32](mask *T, tag int, text string) error {
 		var parsed int64
 		var err error
 		if strings.HasPrefix(part, "0x") || strings.HasPrefix(part, "0X") {
-			parsed, err = strconv.ParseInt(part[2:], 16, 32)
+			// A flag is a 32-bit pattern: bit 31 (0x80000000) does not fit a signed 32-bit parse.
+			var flag uint64
+			flag, err = strconv.ParseUint(part[2:], 16, 32)
+			//nolint:gosec // reinterpreting the 32-bit pattern as int32 is intended
+			parsed = int64(int32(uint32(flag)))
 		} else {
 			parsed, err = strconv.ParseInt(part, 10, 32)
 			if err != nil {
